@@ -1,6 +1,7 @@
 package engine
 
 import (
+	"bytes"
 	"context"
 	"errors"
 	"fmt"
@@ -234,11 +235,17 @@ func (e *ExecutionEngine) Execute(ctx context.Context, operation *graphql.Reques
 	// Validate user-supplied and extracted variables against the (remapped) operation.
 	// ValidateWithRemap translates renamed names back to originals for both JSON lookup
 	// and error messages, so users still see their declared variable names in errors.
-	if len(operation.Variables) > 0 && operation.Variables[0] == '{' {
+	{
+		// absent variables are an empty set of variables: declared variables without
+		// a value must still be checked (required ones are an error)
+		variables := operation.Variables
+		if len(bytes.TrimSpace(variables)) == 0 {
+			variables = []byte("{}")
+		}
 		validator := variablesvalidation.NewVariablesValidator(variablesvalidation.VariablesValidatorOptions{
 			ApolloCompatibilityFlags: e.apolloCompatibilityFlags,
 		})
-		if err := validator.ValidateWithRemap(operation.Document(), e.config.schema.Document(), operation.Variables, remapVariables); err != nil {
+		if err := validator.ValidateWithRemap(operation.Document(), e.config.schema.Document(), variables, remapVariables); err != nil {
 			return err
 		}
 	}
